@@ -3,7 +3,7 @@
 (T) lean/DoitModel/Props/C13.lean over lean/DoitModel/Model/Cmds.lean (task graph + target lists of the three
     commands + a run that honours ignore marks, on top of the M2 state of Model/Status.lean).
 (K) histories (file edits, runs with selections / failures / --always / --continue, `forget` in every argument form,
-    `ignore`, `reset-dep`, unknown names) over generated task sets with task_dep / setup / target->file_dep edges,
+    `ignore`, `reset-dep`, unknown names) over generated task sets with task_dep / setup / calc_dep / target->file_dep edges,
     groups with sub-tasks and `default_tasks` are executed by the real doit *through the command line entry point
     in-process* (`DoitMain.run([...])`) on real files with every backend and both checkers.  Compared with the Lean
     model: the list of tasks each command printed (order and duplicates included), its exit code, per-task reports of
@@ -81,12 +81,12 @@ META = {
                   '§5.  The monitor is a Python predicate (set/equality tests on dumps and reports) over specification '
                   'sets and the reset-dep record predicate evaluated by the Lean driver.',
     'rule': 'task sets of 2-5 creators (45% with a group of 1-2 sub-tasks), 1-2 source files, edges to earlier tasks: '
-            'task_dep p=.3, setup p=.25, target->file_dep p=.3; 40% with default_tasks; a set-up prefix (write sources, '
+            'task_dep p=.3, setup p=.25, calc_dep p=.18 (provider with a file_dep) / .06, target->file_dep p=.3; 40% with default_tasks; a set-up prefix (write sources, '
             'full run) then 3-8 ops: runs (selection, -a, -c, failing actions), forget in 12 argument forms (names, -s, '
             '--all, --disable-default, none, unknown names), ignore, reset-dep (named / all), edits / touches / '
             'deletions of sources and targets, each command mostly followed by a run; 10% of md5 cases change the '
             'checker once; 12% mutations of corpus seeds; exhaustive tier: every command word of length <= 1 (quick; '
-            'length 2 sampled) / <= 2 (thorough; length 3 sampled) over a 13-letter alphabet on 4 fixed task sets; '
+            'length 2 sampled) / <= 2 (thorough; length 3 sampled) over a 14-letter alphabet on 5 fixed task sets; '
             'non-trivial = a command changed the DB and a later run both skipped/ignored and executed; distinct = '
             'distinct rendered case',
     'assumptions': ['a file\'s content never changes while its mtime stays the same (MD5Checker\'s premise); mtimes are '
@@ -159,6 +159,8 @@ class GraphWorld(statuslib.World):
              'uptodate': [self._uptodate(u) for u in t['uptodate']],
              'task_dep': [self.names[x] for x in t['task_dep']],
              'setup': [self.names[x] for x in t['setup']]}
+        if t.get('calc_dep'):
+            d['calc_dep'] = [self.names[x] for x in t['calc_dep']]
         if with_name is not None:
             d['name'] = with_name
         return d
@@ -385,7 +387,8 @@ def run_history(case):
 
 def model_tasks(case):
     return [{'deps': list(t['deps']), 'targets': list(t['targets']), 'uptodate': [list(u) for u in t['uptodate']],
-             'task_dep': list(t['task_dep']), 'setup': list(t['setup']), 'sub_of': t.get('sub_of')}
+             'task_dep': list(t['task_dep']), 'setup': list(t['setup']), 'sub_of': t.get('sub_of'),
+             'calc_dep': list(t.get('calc_dep') or [])}
             for t in case['tasks']]
 
 
@@ -705,8 +708,8 @@ def render(case):
         for key, label in (('deps', 'file_dep'), ('targets', 'targets')):
             if t[key]:
                 bits.append('%s=%s' % (label, [fname(p) for p in t[key]]))
-        for key in ('task_dep', 'setup'):
-            if t[key]:
+        for key in ('task_dep', 'setup', 'calc_dep'):
+            if t.get(key):
                 bits.append('%s=%s' % (key, [names[x] for x in t[key]]))
         if t['uptodate']:
             bits.append('uptodate=%s' % [' '.join(str(x) for x in u) for u in t['uptodate']])
@@ -745,7 +748,7 @@ def render(case):
 def valid_case(case):
     n = len(case['tasks'])
     for i, t in enumerate(case['tasks']):
-        for x in t['task_dep'] + t['setup']:
+        for x in t['task_dep'] + t['setup'] + list(t.get('calc_dep') or []):
             if not (0 <= x < n) or x == i:
                 return False
         if t.get('sub_of') is not None and not (0 <= t['sub_of'] < n and case['tasks'][t['sub_of']].get('group')):
@@ -784,6 +787,7 @@ def drop_task(case, k):
         u = dict(t)
         u['task_dep'] = [tmap(x) for x in t['task_dep'] if x != k]
         u['setup'] = [tmap(x) for x in t['setup'] if x != k]
+        u['calc_dep'] = [tmap(x) for x in (t.get('calc_dep') or []) if x != k]
         u['deps'] = [pmap_(p) for p in t['deps'] if pmap_(p) is not None]
         u['targets'] = [pmap_(p) for p in t['targets'] if pmap_(p) is not None]
         if t.get('sub_of') is not None:
@@ -835,10 +839,10 @@ def shrink_candidates(case):
         if c is not None:
             yield c
     for i, t in enumerate(case['tasks']):
-        for key in ('setup', 'task_dep', 'deps', 'targets', 'uptodate'):
+        for key in ('setup', 'task_dep', 'calc_dep', 'deps', 'targets', 'uptodate'):
             if key == 'task_dep' and t.get('group'):
                 continue
-            for j in range(len(t[key])):
+            for j in range(len(t.get(key) or [])):
                 u = dict(t)
                 u[key] = t[key][:j] + t[key][j + 1:]
                 yield dict(case, tasks=case['tasks'][:i] + [u] + case['tasks'][i + 1:])
@@ -966,7 +970,10 @@ def gen_task(rng, tasks, nsrc, i, sub_of):
         utd = [list(rng.choice(UTD_POOL)) for _ in range(rng.choice([1, 1, 2]))]
     task_dep = [j for j in earlier if rng.random() < 0.3][:2]
     setup = [j for j in earlier if j not in task_dep and rng.random() < 0.25][:2]
-    return {'deps': deps, 'targets': targets, 'uptodate': utd, 'task_dep': task_dep, 'setup': setup,
+    # calc_dep: providers are earlier plain tasks, preferably with saved state of their own (a file_dep)
+    calc_dep = [j for j in earlier if not tasks[j].get('group')
+                and rng.random() < (0.18 if tasks[j]['deps'] else 0.06)][:2]
+    return {'deps': deps, 'targets': targets, 'uptodate': utd, 'task_dep': task_dep, 'setup': setup, 'calc_dep': calc_dep,
             'sub_of': sub_of, 'group': False}
 
 
@@ -1098,9 +1105,10 @@ def mutate_case(rng, case):
 # ----------------------------------------------------------------------------------------------
 # small-scope exhaustive tier: fixed task sets x every short command history
 
-def _t(deps=(), targets=(), task_dep=(), setup=(), utd=(), sub_of=None, group=False):
+def _t(deps=(), targets=(), task_dep=(), setup=(), utd=(), sub_of=None, group=False, calc_dep=()):
     return {'deps': list(deps), 'targets': list(targets), 'uptodate': [list(u) for u in utd],
-            'task_dep': list(task_dep), 'setup': list(setup), 'sub_of': sub_of, 'group': group}
+            'task_dep': list(task_dep), 'setup': list(setup), 'sub_of': sub_of, 'group': group,
+            'calc_dep': list(calc_dep)}
 
 
 # nsrc = 1: f0 is the source, target of task i is f(1+i)
@@ -1114,6 +1122,8 @@ SMALL_SETS = [
     [_t(deps=[0], targets=[1]), _t(deps=[1], targets=[2]), _t(deps=[2], utd=[['const', True]])],
     # diamond with setup + task_dep to the same task
     [_t(deps=[0]), _t(deps=[0], task_dep=[0]), _t(deps=[0], setup=[0]), _t(deps=[0], task_dep=[1], setup=[2])],
+    # calc_dep: 1 gets calculated dependencies from 0 (which has its own dependency 3 over task_dep); 2 depends on 1
+    [_t(deps=[0], task_dep=[3]), _t(deps=[0], calc_dep=[0]), _t(deps=[0], task_dep=[1]), _t(deps=[0])],
 ]
 
 SMALL_CMDS = [
@@ -1121,6 +1131,7 @@ SMALL_CMDS = [
     ['forget', {'names': [], 'sub': True, 'all': False, 'dd': False}],
     ['forget', {'names': [1], 'sub': False, 'all': False, 'dd': False}],
     ['forget', {'names': [2], 'sub': True, 'all': False, 'dd': False}],
+    ['forget', {'names': [1], 'sub': True, 'all': False, 'dd': False}],
     ['forget', {'names': [0], 'sub': False, 'all': False, 'dd': False}],
     ['forget', {'names': [], 'sub': False, 'all': True, 'dd': False}],
     ['ignore', [0]],
@@ -1204,6 +1215,8 @@ def process_batch(arg):
         st.count('graph-wf:%s' % r['wf'])
         if any(t.get('group') for t in case['tasks']):
             st.count('has-group')
+        if any(t.get('calc_dep') for t in case['tasks']):
+            st.count('has-calc-dep')
         for op in case['ops']:
             if op[0] == 'forget':
                 a = op[1]
